@@ -303,13 +303,11 @@ Proof. exact conv2d_value. Qed.
 Print Assumptions C03_conv2d_value.
 
 (* ---- non-vacuity: x + k over nat, x batched (B = 2, two samples of a 2-vector), k shared ---- *)
-Definition C03_ex : expr nat :=
-  Bin nat Nat.add (Leaf nat (mkT [2] 2) [1; 2; 3; 4]) (Leaf nat (mkT [2] 1) [10; 20]).
-
 Example C03_nonvacuous :
-  wf nat 0 2 C03_ex /\
-  eval nat 0 C03_ex = (mkT [2] 2, [11; 22; 13; 24]) /\
-  eval nat 0 (esample nat 1 C03_ex) = (mkT [2] 1, [13; 24]).
+  let e := Bin nat Nat.add (Leaf nat (mkT [2] 2) [1; 2; 3; 4]) (Leaf nat (mkT [2] 1) [10; 20]) in
+  wf nat 0 2 e /\
+  eval nat 0 e = (mkT [2] 2, [11; 22; 13; 24]) /\
+  eval nat 0 (esample nat 1 e) = (mkT [2] 1, [13; 24]).
 Proof. vm_compute. repeat split; auto. Qed.
 
 (* the sum over samples reaching a shared operand: B = 2, V = 2, increments 1 2 | 3 4 on top of 100 200 *)
